@@ -1,6 +1,8 @@
 """Path runner: decisions, path condition, obligations, symbolic inputs from shapes."""
 import time
 import z3
+import os
+import sys
 from . import spec as S
 from .vals import *
 
@@ -118,6 +120,7 @@ class PathRun:
         self.tier = 'T1'
         self.handles = 0
         self.gcache = {}
+        self.ctor_info = {}     # decl name of a pure constructor -> [(field name, field array)] (projection facts, see prove)
         self.fields = {}       # attribute name -> current z3 Array(Val -> Val): mutable attributes of opaque objects
         self.fields0 = {}
         self.pre_fields = {}
@@ -139,7 +142,7 @@ class PathRun:
         # only infeasible because of them is explored anyway; its obligations then hold trivially)
         s = z3.Solver()
         s.set('timeout', self.d.budget.feas_ms)
-        for c in self.pc:
+        for c in self.flat_pc():
             if not has_quantifier(c):
                 s.add(c)
         s.add(cond)
@@ -147,6 +150,21 @@ class PathRun:
         r = s.check()
         self.d.solver_time += time.time() - t0
         return str(r)
+
+    def flat_pc(self):
+        """the path condition with top-level conjunctions split (so that the ground conjuncts of a formula that also has a
+        quantified conjunct stay available to the quantifier-free passes)"""
+        out = []
+
+        def split(c):
+            if z3.is_and(c):
+                for ch in c.children():
+                    split(ch)
+            else:
+                out.append(c)
+        for c in self.pc:
+            split(c)
+        return out
 
     def assume(self, cond):
         if isinstance(cond, bool):
@@ -225,16 +243,26 @@ class PathRun:
                 # first from the quantifier-free hypotheses alone (sound: fewer hypotheses): with the ground hint instances
                 # added at lookups this is usually enough, and the solver is far more predictable without quantifiers
                 r = None
-                qf = [c for c in self.pc if not has_quantifier(c)]
-                if len(qf) < len(self.pc):
-                    ngoal, insts = self.skolem_instances(goal)
+                flat = self.flat_pc()
+                qf = [c for c in flat if not has_quantifier(c)]
+                if os.environ.get('PYVC_QF_DUMP'):
+                    print('PROVE', kind, label, self.path_id(), 'flat', len(flat), 'qf', len(qf), file=sys.stderr)
+                if len(qf) < len(flat):
+                    ngoal, insts = self.skolem_instances(goal, flat)
                     insts = [c for c in insts if not has_quantifier(c)]
-                    s0 = self._solver(min(3000, max(1000, self.d.budget.timeout_ms // 4)))
+                    insts += self.ctor_facts(qf + insts + [ngoal])
+                    s0 = self._solver(int(__import__("os").environ.get("PYVC_QF_MS", min(3000, max(1000, self.d.budget.timeout_ms // 4)))))
                     s0.add(*qf)
                     s0.add(*insts)
                     s0.add(ngoal)
                     s0.add(*ground_axioms(qf + insts + [ngoal]))
-                    if str(s0.check()) == 'unsat':
+                    r0 = str(s0.check())
+                    if os.environ.get('PYVC_QF_DUMP'):
+                        print('  QF', r0, s0.reason_unknown() if r0 == 'unknown' else '', len(insts), file=sys.stderr)
+                    if r0 != 'unsat' and os.environ.get('PYVC_QF_DUMP'):
+                        self._qfn = getattr(self, '_qfn', 0) + 1
+                        open(f"{os.environ['PYVC_QF_DUMP']}_{kind}_{label}_{self.path_id()}_{part}.smt2".replace(' ', '_'), 'w').write(f'; {r0} {s0.reason_unknown() if r0 == "unknown" else ""}\n' + s0.to_smt2())
+                    if r0 == 'unsat':
                         r = 'unsat'
                         detail = (detail + ' (from the quantifier-free hypotheses' + (f' and {len(insts)} instances at the goal index' if insts else '') + ')').strip()
                 if r is None:
@@ -280,7 +308,7 @@ class PathRun:
         if self.d.ob_cache[key].verdict != 'failed' and assume:
             self.pc.append(goal)
 
-    def skolem_instances(self, goal):
+    def skolem_instances(self, goal, hyps=None):
         """(negated goal, instances of quantified hypotheses).  A goal `forall j: P(j)` is refuted at a fresh index j0.
         Universally quantified hypotheses over one integer are instantiated at j0, j0 - 1, j0 + 1 and at the ground index
         terms the (skolemised) goal reads sequences at; hypotheses over one value (the witness axioms of comprehension
@@ -321,9 +349,26 @@ class PathRun:
         index_terms(ngoal, ixs, set())
         for t in ixs:
             add(t)
+        # element k of a slice s[a:...] is element a + k of s: the hypotheses about s are needed at a + j0
+        offs, oseen = [], set()
+
+        def extract_offsets(e, memo):
+            if e.get_id() in memo or z3.is_quantifier(e):
+                return
+            memo.add(e.get_id())
+            if z3.is_app(e):
+                if e.decl().kind() == z3.Z3_OP_SEQ_EXTRACT and _is_ground_term(e.arg(1), gcache) and e.arg(1).get_id() not in oseen:
+                    oseen.add(e.arg(1).get_id())
+                    offs.append(e.arg(1))
+                for ch in e.children():
+                    extract_offsets(ch, memo)
+        extract_offsets(ngoal, set())
+        for off in offs[:3]:
+            for sk in sks[:1]:
+                add(z3.simplify(off + sk))
         insts = []
         valq = []
-        for h in self.pc:
+        for h in (hyps if hyps is not None else self.pc):
             if not (z3.is_quantifier(h) and h.is_forall()):
                 continue
             n = h.num_vars()
@@ -362,6 +407,28 @@ class PathRun:
                     insts.append(z3.substitute_vars(h.body(), k))
         return ngoal, insts
 
+    def ctor_facts(self, formulas):
+        """field(ctor(a1..an)) == ai for every ground application of a pure constructor occurring in the formulas"""
+        if not self.ctor_info:
+            return []
+        out, seen, gcache = [], set(), {}
+
+        def walk(e):
+            if e.get_id() in seen or z3.is_quantifier(e):
+                return
+            seen.add(e.get_id())
+            if z3.is_app(e):
+                info = self.ctor_info.get(e.decl().name())
+                if info is not None and _is_ground_term(e, gcache):
+                    for k, (a, arr) in enumerate(info):
+                        if k < e.num_args():
+                            out.append(z3.Select(arr, e) == e.arg(k))
+                for ch in e.children():
+                    walk(ch)
+        for f in formulas:
+            walk(f)
+        return out
+
     def dict_hint(self, d, k):
         """add the ground instance of a comprehension dict's witness axiom at a looked-up key"""
         if getattr(d, 'inst', None) is None:
@@ -380,7 +447,18 @@ class PathRun:
         s.add(*self.pc)
         s.add(*ground_axioms(self.pc))
         t0 = time.time()
-        r = str(s.check())
+        # the path is infeasible already when its quantifier-free part is (sound: fewer hypotheses)
+        r = None
+        flat = self.flat_pc()
+        qf = [c for c in flat if not has_quantifier(c)]
+        if len(qf) < len(flat):
+            s0 = self._solver(int(__import__("os").environ.get("PYVC_QF_MS", min(3000, max(1000, self.d.budget.timeout_ms // 4)))))
+            s0.add(*qf)
+            s0.add(*ground_axioms(qf))
+            if str(s0.check()) == 'unsat':
+                r = 'unsat'
+        if r is None:
+            r = str(s.check())
         dt = time.time() - t0
         self.d.solver_time += dt
         model = None
@@ -653,7 +731,16 @@ class PathRun:
             cs = [self.val_constraint(t, s) for s in sh.shapes]
             return None if any(c is None for c in cs) else z3.Or(*cs)
         if isinstance(sh, S.ListOf):
-            return Val.is_VSeq(t)
+            # a list in attribute / element position: its length bound and the shape of its elements
+            cs = [Val.is_VSeq(t)]
+            seq = items(Val.h(t))
+            if sh.minlen:
+                cs.append(z3.Length(seq) >= sh.minlen)
+            j = z3.Int(self.fresh('j'))
+            c = self.val_constraint(seq[j], sh.elem)
+            if c is not None:
+                cs.append(z3.ForAll([j], z3.Implies(z3.And(j >= 0, j < z3.Length(seq)), c)))
+            return z3.And(*cs)
         return None
 
     def from_val(self, t, sh):
